@@ -24,6 +24,14 @@ def run_dial_task():
     return ex, fn, res
 
 
+def join_error_panic(res):
+    """panic path = unwrap() of the JoinError of an awaited tokio JoinHandle (the spawned task itself panicked or the
+    runtime is shutting down)"""
+    evs = [e for e in res.events if e.kind in ('poll', 'panic')]
+    return (res.tag == 'panic' and len(evs) >= 2 and evs[-1].kind == 'panic' and 'unwrap' in str(evs[-1].name)
+            and evs[-2].kind == 'poll' and 'JoinHandle' in str(evs[-2].name))
+
+
 def ob_dial_task(report, prop):
     def body(ob):
         ex, fn, res = run_dial_task()
@@ -37,6 +45,8 @@ def ob_dial_task(report, prop):
         for r in res:
             if r.tag != 'return':
                 if r.tag in ('panic', 'diverge'):
+                    if join_error_panic(r):
+                        continue            # JoinError of the blocking resolver task (it panicked / runtime shut down): outside the claim
                     return bad(f'dial task can {r.tag}', 'dial-abnormal', r)
                 continue
             ret = r.ret
